@@ -1,6 +1,6 @@
 (* C47 -- property theorems (statements only; proofs in C47Proofs.v). *)
 From Coq Require Import List String.
-From C47 Require Import C47Model C47Proofs.
+From C47 Require Import C47Model C47Proofs C47Reader C47Round C47Conc C47Strings.
 Import ListNotations.
 Local Open Scope string_scope.
 
@@ -66,3 +66,108 @@ Theorem C47_prefixes_rejected_examples :
           (seq 0 (List.length (print_registry ex_new))) = true.
 Proof. exact prefixes_rejected_examples. Qed.
 Print Assumptions C47_prefixes_rejected_examples.
+
+(* ------------------------------------------------------------------ second round: no more "reads back" hypothesis *)
+(* writing then re-reading is the identity, at token level, for every registry of the class that mfront writes (eight clean
+   vectors per library, cppflags / include directories beginning with the constructor's defaults, distinct library names,
+   specific targets with a non-empty name and four vectors): by induction on the libraries, their members, the
+   headers and the targets *)
+Theorem C47_roundtrip_tokens : forall tc t, wf_registry tc t = true -> read_registry tc (print_registry t) = Some t.
+Proof. exact read_print. Qed.
+Print Assumptions C47_roundtrip_tokens.
+(* outside that class the identity fails (a duplicate is dropped by the reader's merge) *)
+Theorem C47_roundtrip_needs_wellformed_refuted :
+  exists t, wf_registry tc0 t = false /\ read_registry tc0 (print_registry t) <> Some t.
+Proof. exact roundtrip_needs_wf. Qed.
+Print Assumptions C47_roundtrip_needs_wellformed_refuted.
+(* every strict token prefix of a printed registry is rejected by the reader: "truncated file = error" *)
+Theorem C47_prefix_rejected_tokens : forall tc t k,
+  wf_registry tc t = true -> k < List.length (print_registry t) -> read_registry tc (firstn k (print_registry t)) = None.
+Proof. exact prefix_rejected. Qed.
+Print Assumptions C47_prefix_rejected_tokens.
+(* string tokens at byte level, for the printable class (no backslash, no line break; names: no quote either): what the
+   reader extracts from the printed literal is the string, and the tokenizer's closing rule ends the literal at its last quote *)
+Theorem C47_string_tokens_partial : forall s rest,
+  printable s = true ->
+  unescape (escape s) = s /\ close_at 0 (escape s ++ String dquote rest) = Some (String.length (escape s)).
+Proof. exact string_tokens. Qed.
+Print Assumptions C47_string_tokens_partial.
+Theorem C47_name_tokens_partial : forall s rest,
+  printable_name s = true -> close_at 0 (s ++ String dquote rest) = Some (String.length s).
+Proof. exact close_at_raw. Qed.
+Print Assumptions C47_name_tokens_partial.
+(* what mergeTargetsDescription builds from a well-formed registry is well formed *)
+Theorem C47_merge_builds_wellformed : forall tc d s b r,
+  merge_registry tc d s b = Some r -> wf_registry tc d = true -> forallb wf_target (targets s) = true -> wf_registry tc r = true.
+Proof. exact merge_registry_wf. Qed.
+Print Assumptions C47_merge_builds_wellformed.
+(* one run over a file that holds a registry (no file = the empty one): error, or the new file holds a registry that keeps
+   every library of the old one and of the run's own description *)
+Theorem C47_run_holds : forall tc p f t td,
+  holds tc f t -> targets_ok td ->
+  match run tc p f td with
+  | Error => True
+  | Done f' r => holds tc f' r /\ libs_cover (libs t) (libs r) /\ libs_cover (libs td) (libs r)
+  end.
+Proof. exact run_holds. Qed.
+Print Assumptions C47_run_holds.
+(* histories: after any sequence of runs the file holds a registry that keeps every library of the first file and of every
+   run that succeeded *)
+Theorem C47_history_keeps : forall tc p tds f t,
+  holds tc f t -> Forall targets_ok tds ->
+  exists r, holds tc (runs tc p f tds) r /\ libs_cover (libs t) (libs r) /\
+            forall td, In td (accepted tc p f tds) -> libs_cover (libs td) (libs r).
+Proof. exact history_keeps. Qed.
+Print Assumptions C47_history_keeps.
+(* crashes, write-then-rename: for EVERY crash point the later run errors or keeps every library *)
+Theorem C47_crash_atomic_keeps : forall tc fatal_ old new k td,
+  wf_registry tc old = true -> wf_registry tc new = true -> libs_cover (libs old) (libs new) -> targets_ok td ->
+  match run tc (mkPolicy true fatal_) (crash_state (mkPolicy true fatal_) (Some (print_registry old)) (print_registry new) k) td with
+  | Error => True
+  | Done f r => holds tc f r /\ libs_cover (libs old) (libs r)
+  end.
+Proof. exact crash_atomic_keeps. Qed.
+Print Assumptions C47_crash_atomic_keeps.
+(* crashes, in place but with a fatal parse error: the truncated file is a strict prefix, hence rejected, hence the run stops *)
+Theorem C47_crash_in_place_fatal : forall tc old new k td,
+  wf_registry tc old = true -> wf_registry tc new = true -> libs_cover (libs old) (libs new) -> targets_ok td ->
+  match run tc (mkPolicy false true) (crash_state (mkPolicy false true) (Some (print_registry old)) (print_registry new) k) td with
+  | Error => True
+  | Done f r => libs_cover (libs old) (libs r)
+  end.
+Proof. exact crash_in_place_fatal. Qed.
+Print Assumptions C47_crash_in_place_fatal.
+
+(* ------------------------------------------------------------------ two concurrent runs (temporary file named after the process) *)
+(* for EVERY interleaving of the elementary steps (read, open, write one token, rename) of two runs, lock or no lock: the
+   registry file always holds a complete well-formed registry ... *)
+Theorem C47_two_writers_never_damaged : forall tc p td0 td1, targets_ok td0 -> targets_ok td1 ->
+  forall f0 t0, holds tc f0 t0 -> forall sched, exists t, holds tc (cmain (cexec tc p false td0 td1 sched (cinit f0))) t.
+Proof. exact two_writers_never_damaged. Qed.
+Print Assumptions C47_two_writers_never_damaged.
+(* ... and once both are over it is the registry of one of the two, never a mixture *)
+Theorem C47_two_writers_no_mixture : forall tc p td0 td1, targets_ok td0 -> targets_ok td1 ->
+  forall f0 t0, holds tc f0 t0 -> forall sched m0 m1,
+  let s := cexec tc p false td0 td1 sched (cinit f0) in
+  pc0 s = PDone m0 -> pc1 s = PDone m1 -> cmain s = Some (print_registry m0) \/ cmain s = Some (print_registry m1).
+Proof. exact two_writers_no_mixture. Qed.
+Print Assumptions C47_two_writers_no_mixture.
+(* under the lock, one run entirely before the other: exactly two successive runs (hence nothing is lost, C47_history_keeps) *)
+Theorem C47_serial_sections_are_runs : forall tc p td0 td1 f0,
+  cmain (cexec_locked tc p false td0 td1 [false; false; true; true] (cinit f0)) = runs tc p f0 [td0; td1].
+Proof. exact serial_sections_are_runs. Qed.
+Print Assumptions C47_serial_sections_are_runs.
+(* but the lock is taken for the read and, separately, for the write: run B reads before A writes and writes after A:
+   both runs succeed and library "M" of run A is not in the registry (lost update) *)
+Theorem C47_no_library_lost_under_concurrency_refuted :
+  let s := cexec_locked tc0 fixed false ex_tdA ex_tdB [false; true; false; true] (cinit None) in
+  (exists m0, pc0 s = PDone m0 /\ describes (libs m0) "M" = true) /\
+  (exists m1, pc1 s = PDone m1 /\ cmain s = Some (print_registry m1) /\ describes (libs m1) "M" = false).
+Proof. exact lost_update_witness. Qed.
+Print Assumptions C47_no_library_lost_under_concurrency_refuted.
+(* one temporary name for every process (the first version of the repair): the registry can be left empty *)
+Theorem C47_shared_temporary_name_refuted :
+  let s := cexec tc0 fixed true ex_tdA ex_tdB shared_sched (cinit None) in
+  cmain s = Some [] /\ read_registry tc0 [] = None /\ (exists m0, pc0 s = PDone m0).
+Proof. exact shared_tmp_witness. Qed.
+Print Assumptions C47_shared_temporary_name_refuted.
